@@ -450,6 +450,7 @@ class Oracles:
         incb = [t for t in must if t.in_cb]
         if incb:
             w.label("flush:overlaps-callback")
+        failed_before = [t for t in must if t.finished() and not t.atask.cancelled() and t.atask.exception() is not None]
         self.flushes_active += 1
         if self.flushes_active >= 2:
             w.label("flush:overlapping-flushes")
@@ -485,6 +486,8 @@ class Oracles:
                     tm.may_forget = True      # a raising flush may or may not have forgotten what had finished
             self.resolve_forgotten(pm)
             return
+        if failed_before and not re_:
+            w.fail({"C12"}, "flush/swallowed-a-task-exception", f"{pm.name}#{failed_before[0].tid} had failed with {failed_before[0].atask.exception()!r}")
         # returned normally: everything finished before the call must be forgotten
         for tm in must:
             tm.may_forget = True
@@ -581,6 +584,10 @@ class Oracles:
             return
         # returned normally: snapshot of the world in this very step
         w.label("close:returned")
+        if not re_:
+            bad = [t for t in pm.tasks.values() if not t.forgotten and t.finished() and not t.atask.cancelled() and t.atask.exception() is not None]
+            if bad:
+                w.fail({"C12"}, "close/swallowed-a-task-exception", f"{pm.name}#{bad[0].tid} had failed with {bad[0].atask.exception()!r}")
         for r in pre_reqs:
             if r.cancelled:
                 continue
